@@ -90,8 +90,14 @@ def lean_stage(mod, tier, log):
         if rc_d != 0:
             res["driver_messages"] = out_d[-3000:]
         names, path = theorem_names(mod.LEAN)
+        extra_mods = list(getattr(mod, "LEAN_EXTRA", []))
+        for em in extra_mods:
+            try:
+                names += theorem_names(em)[0]
+            except OSError:
+                names.append(f"({em} missing)")
         res["obligations"] = names
-        rc, out = sh(["lake", "build", mod.LEAN], cwd=LEAN_DIR)
+        rc, out = sh(["lake", "build", mod.LEAN] + extra_mods, cwd=LEAN_DIR)
         res["build_s"] = round(time.time() - t0, 1)
         if rc != 0:
             res["messages"] += out[-6000:]
@@ -107,7 +113,7 @@ def lean_stage(mod, tier, log):
         os.makedirs(os.path.join(LEAN_DIR, "Audit"), exist_ok=True)
         ap = os.path.join(LEAN_DIR, "Audit", mod.LEAN.split(".")[-1] + ".lean")
         with open(ap, "w") as fh:
-            fh.write(f"import {mod.LEAN}\n" + "".join(f"#print axioms {n}\n" for n in names))
+            fh.write(f"import {mod.LEAN}\n" + "".join(f"import {em}\n" for em in extra_mods) + "".join(f"#print axioms {n}\n" for n in names))
         rc, out = sh(["lake", "env", "lean", ap], cwd=LEAN_DIR)
         res["audit_cmd"] = f"cd lean && lake build {mod.LEAN} && lake env lean Audit/{os.path.basename(ap)}"
         for n in names:
